@@ -33,7 +33,7 @@ fn is_root_move(m: Move) -> bool { (m.to as usize) < br() && has_moves_at(0, 0) 
 /// exactly one bestmove line; a legal move of the root when it has one, 0000 only when it has none
 fn check_one_bestmove() {
     let nb = out::count(out::K_BESTMOVE); let nn = out::count(out::K_BESTMOVE_NONE);
-    vassert!(!unsafe { out::OVERFLOW }, "C03: more output lines than any correct answer has");
+    vassert!(!unsafe { out::OUT.overflow }, "C03: more output lines than any correct answer has");
     vassert!(nb + nn == 1, "C03: go was not answered by exactly one bestmove line");
     if has_moves_at(0, 0) {
         vassert!(nn == 0, "C03: bestmove 0000 although the position has a legal move");
@@ -62,7 +62,7 @@ fn c03_case(b: usize, l: usize, form: u8, stop_at: u32, warm: bool, maxd: u8) {
         *u::board_mut(&mut f) = Board::root();
     }
     out::reset();
-    unsafe { STOP_AT = stop_at; }
+    unsafe { CLK.stop_at = stop_at; }
     let n = crate::h_time::any_num();
     if form == 0 {
         let d = sym::u8(); sym::assume(d >= 1 && d <= maxd);
@@ -136,15 +136,15 @@ fn same_log(a: &([out::Line; out::MAXLINES], usize), b: &([out::Line; out::MAXLI
 /// identity order in both runs (an arbitrary permutation would differ between the runs by construction).
 fn c13_keys(b: usize, l: usize, depth: u8) {
     setup_game(b, l);
-    unsafe { ORDER_IDENTITY = true; }
+    unsafe { HC.order_identity = true; }
     // second key set: injective as well
     macro_rules! h2 { ($n:expr) => { if $n < node_count() { let h = sym::u64(); sym::assume(h & 63 == $n as u64); unsafe { HASH2[$n] = h; } } }; }
     h2!(0); h2!(1); h2!(2); h2!(3); h2!(4); h2!(5); h2!(6); h2!(7); h2!(8); h2!(9); h2!(10); h2!(11); h2!(12); h2!(13); h2!(14);
-    unsafe { USE_HASH2 = false; }
+    unsafe { CLK.use_hash2 = false; }
     out::reset();
     run_script_depth(depth, false);
     let first = snapshot();
-    unsafe { USE_HASH2 = true; }
+    unsafe { CLK.use_hash2 = true; }
     out::reset();
     run_script_depth(depth, false);
     let second = snapshot();
@@ -155,7 +155,7 @@ fn c13_keys(b: usize, l: usize, depth: u8) {
 /// After ucinewgame the engine's state and its next answer equal a fresh engine's.
 fn c13_newgame(b: usize, l: usize, depth: u8) {
     setup_game(b, l);
-    unsafe { ORDER_IDENTITY = true; }
+    unsafe { HC.order_identity = true; }
     out::reset();
     run_script_depth(depth, false);
     let fresh = snapshot();
@@ -179,7 +179,7 @@ const MOVE_TOKENS: [&str; 3] = ["m0", "m1", "m2"];
 /// that path, and the game history is exactly the positions passed through before it, in order.
 fn position_case(k: usize, fen_form: bool) {
     setup_game(2, 2);
-    unsafe { ORDER_IDENTITY = true; }
+    unsafe { HC.order_identity = true; }
     let mut f = Flounder::new();
     // an earlier position command of another game (must leave nothing behind)
     if sym::bool() && has_moves_at(0, 0) && g().nmoves[0] > 1 { u::command(&mut f, "position startpos moves m1"); }
